@@ -191,6 +191,16 @@ theorem fsmIdx_pos (r : Raft) (h : Inv r) (hc : ∃ x ∈ r.log, x.2.isCmd = tru
   have h2 := h.2 x hx hc
   simp only [fsmIdx]; omega
 
+theorem replay_filter (s : List Nat) (a : Nat) (l : List (Nat × Entry)) :
+    replay s a (l.filter (fun x => decide (a < x.1))) = replay s a l := by
+  induction l generalizing s with
+  | nil => rfl
+  | cons x t ih =>
+    obtain ⟨j, f⟩ := x
+    by_cases hj : a < j
+    · simp only [List.filter, hj, decide_true, replay, if_true]; exact ih _
+    · simp only [List.filter, hj, decide_false, replay, if_false]; exact ih _
+
 theorem foldl_congr_fun {α β : Type} (f g : α → β → α) (h : ∀ a b, f a b = g a b) (x : α) (l : List β) :
     l.foldl f x = l.foldl g x := by
   induction l generalizing x with
